@@ -109,6 +109,7 @@ fn worker(args: &[String]) -> i32 {
         "dev_skipped": stats.dev_skipped,
         "capped": stats.capped,
         "bound_completed": stats.bound_completed,
+        "too_long": stats.too_long,
         "per_depth": stats.per_depth,
         "found": found,
         "samples": stats.samples,
@@ -295,6 +296,7 @@ fn check(prop: &str, tier: &str) -> i32 {
         let mut h_pruned = 0u64;
         let mut h_maxd = 0u64;
         let mut h_capped = false;
+        let mut h_too_long = 0u64;
         let mut h_bound: Option<i64> = None;
         let mut per_depth: Vec<u64> = Vec::new();
         // Watchdog: a worker that exceeds the deadline is killed (machinery failure).
@@ -401,6 +403,7 @@ fn check(prop: &str, tier: &str) -> i32 {
             h_trans += v["transitions"].as_u64().unwrap_or(0);
             h_pruned += v["pruned"].as_u64().unwrap_or(0);
             h_maxd = h_maxd.max(v["max_depth"].as_u64().unwrap_or(0));
+            h_too_long += v["too_long"].as_u64().unwrap_or(0);
             capped |= v["capped"].as_bool().unwrap_or(false);
             h_capped |= v["capped"].as_bool().unwrap_or(false);
             if let Some(b) = v["bound_completed"].as_i64() {
@@ -451,6 +454,10 @@ fn check(prop: &str, tier: &str) -> i32 {
             let _ = std::fs::remove_file(format!("{out}.keys"));
             let _ = std::fs::remove_file(format!("{out}.crumb"));
         }
+        if h_too_long > 0 && h_too_long * 2 >= h_exec.max(1) {
+            // A harness most of whose schedules never end judges (almost) nothing: say so instead of passing.
+            machinery.push(format!("harness {}: {h_too_long} of {h_exec} schedules were cut off at the point limit (a loop the scheduler cannot leave); the harness is vacuous", h.name));
+        }
         total_exec += h_exec;
         total_trans += h_trans;
         harness_reports.push(json!({
@@ -463,6 +470,7 @@ fn check(prop: &str, tier: &str) -> i32 {
             "max_depth": h_maxd,
             "nodes_per_depth": per_depth,
             "wall_cap_hit": h_capped,
+            "schedules_cut_at_point_limit_not_judged": h_too_long,
             "bound_completed_by_all_workers": h_bound,
             "wall_s": th.elapsed().as_secs_f64(),
         }));
